@@ -325,6 +325,7 @@ def deserialize_list_of_lists(
                                                     item,
                                                     delimiter = delimiter_for_sublists,
                                                     parse_item = parse_item,
+                                                    parse_empty = parse_empty,
                                                     default_list_result = default_list_result,
                                                 )
                                          )
